@@ -314,7 +314,9 @@ func parseBlock(nativeBlock *hclsyntax.Block, from, leadComments, lineComments, 
 		children.AppendNode(in)
 	}
 
-	_, labelsNode, from := parseBlockLabels(nativeBlock, from)
+	before, labelsNode, from := parseBlockLabels(nativeBlock, from)
+	// any tokens between the type name and the first label (comments)
+	children.AppendUnstructuredTokens(before.Tokens())
 	block.labels = labelsNode
 	children.AppendNode(labelsNode)
 
